@@ -3,7 +3,7 @@ import math
 
 from .. import gen, tol
 from ..rateprobe import run_case, reference, common_buckets, exc_detail
-from ..util import KIND, EPS
+from ..util import KIND, EPS, MODEL_NAMES
 
 PROPERTY = "C05"
 TECHNIQUE = "runtime monitoring: contract monitor + shadow executions (win/draw/loss, exchange of places, identical teams)"
@@ -28,6 +28,15 @@ def floors(tier):
 
 
 def generate(ctx):
+    idx = 0
+    for rep in range(1 if ctx.tier == "quick" else 12):
+        for m_ in MODEL_NAMES:
+            for k_ in (5, 6, 7, 8):
+                idx += 1
+                if idx % ctx.nshards == ctx.shard:
+                    # every tie-group composition of k_ teams x systematic team-size patterns
+                    for case, meta in gen.shape_cases(ctx.rng, m_, k_):
+                        yield "ab", dict(case=case, meta=meta)
     n = ctx.budget(9000, 3750000)
     for it in range(n):
         m = ctx.rng.random()
